@@ -305,6 +305,10 @@ func (pc *pCtx) p7Lockset(s *pSite, wantRaces, wantOrder bool) {
 	if len(ctxs) < 2 {
 		return
 	}
+	var oprops11 []string
+	var inCtxs11 map[*ssa.Function]map[string]bool
+	var entryOf11 map[*ssa.Function]map[ssa.Value]bool
+	var writes11 map[string]map[*ssa.Alloc]bool
 	if wantOrder {
 		// P11: a value taken out of shared state under a lock and handed downstream after that lock was released can be
 		// overtaken by the same hand-over running in another context (a tick and a source value, two sources): the
@@ -372,6 +376,7 @@ func (pc *pCtx) p7Lockset(s *pSite, wantRaces, wantOrder bool) {
 			// its own - SampleWhen's tick against the completion of the source - and is not flagged)
 			return ""
 		}
+		oprops11, inCtxs11, entryOf11, writes11 = oprops, inCtxs, entryOf, writes
 		var fns []*ssa.Function
 		for fn := range inCtxs {
 			fns = append(fns, fn)
@@ -542,6 +547,9 @@ func (pc *pCtx) p7Lockset(s *pSite, wantRaces, wantOrder bool) {
 			}
 		}
 	}
+	if wantOrder {
+		pc.p11bHandles(s, oprops11, inCtxs11, entryOf11, writes11)
+	}
 	if !wantRaces {
 		return
 	}
@@ -700,5 +708,102 @@ func (pc *pCtx) p7Lockset(s *pSite, wantRaces, wantOrder bool) {
 		pc.add(props, fmt.Sprintf("P7/%s/cell:%s", s.Name, name),
 			"a cell reached from two concurrent contexts (callbacks of different subscriptions, goroutines, timers, the teardown) is accessed atomically or always under one common lock", ok,
 			strings.Join(dedup(bad), "; "), pc.pos(al.Pos()))
+	}
+}
+
+
+// p11bHandles: an observer-like object (a window or group subject) taken from a shared cell under a lock and used after
+// the lock was released, while another context replaces the content of that cell: the other context may have completed
+// or replaced the object in between, so the value sent to it is lost or a freshly delivered object is never completed.
+func (pc *pCtx) p11bHandles(s *pSite, props []string, inCtxs map[*ssa.Function]map[string]bool, entryOf map[*ssa.Function]map[ssa.Value]bool, writes map[string]map[*ssa.Alloc]bool) {
+	var fns []*ssa.Function
+	for fn := range inCtxs {
+		fns = append(fns, fn)
+	}
+	sort.Slice(fns, func(i, j int) bool { return funcKey(fns[i]) < funcKey(fns[j]) })
+	replacedElsewhere := func(fn *ssa.Function, al *ssa.Alloc) bool {
+		for cn, ws := range writes {
+			if ws[al] && (!inCtxs[fn][cn] || len(inCtxs[fn]) >= 2) {
+				return true
+			}
+		}
+		return false
+	}
+	for _, fn := range fns {
+		ls := s.locksets(fn, entryOf[fn])
+		n := 0
+		for _, b := range fn.Blocks {
+			for _, ins := range b.Instrs {
+				call, ok := ins.(*ssa.Call)
+				if !ok || !call.Common().IsInvoke() || s.isDest(call.Common().Value) {
+					continue
+				}
+				m := call.Common().Method.Name()
+				if !(strings.HasPrefix(m, "Next") || strings.HasPrefix(m, "Error") || strings.HasPrefix(m, "Complete")) || !hasMethod(call.Common().Value.Type(), "NextWithContext") {
+					continue
+				}
+				// the shared cells the receiver was loaded from
+				var loads []*ssa.UnOp
+				seen := map[ssa.Value]bool{}
+				var back func(v ssa.Value, d int)
+				back = func(v ssa.Value, d int) {
+					if v == nil || seen[v] || d > 10 {
+						return
+					}
+					seen[v] = true
+					switch t := v.(type) {
+					case *ssa.UnOp:
+						if t.Op == token.MUL {
+							if al, ok := s.root(t.X).(*ssa.Alloc); ok && al.Parent() == s.Subscribe && !inLoop(al) {
+								loads = append(loads, t)
+								return
+							}
+						}
+						back(t.X, d+1)
+					case *ssa.Phi:
+						for _, e := range t.Edges {
+							back(e, d+1)
+						}
+					case *ssa.ChangeInterface:
+						back(t.X, d+1)
+					case *ssa.MakeInterface:
+						back(t.X, d+1)
+					case *ssa.TypeAssert:
+						back(t.X, d+1)
+					case *ssa.ChangeType:
+						back(t.X, d+1)
+					case *ssa.Extract:
+						back(t.Tuple, d+1)
+					}
+				}
+				back(call.Common().Value, 0)
+				relevant := false
+				ok2 := true
+				note := ""
+				for _, ld := range loads {
+					al, _ := s.root(ld.X).(*ssa.Alloc)
+					if ld.Parent() != fn || al == nil || len(ls[ld]) == 0 || !replacedElsewhere(fn, al) {
+						continue
+					}
+					relevant = true
+					common := false
+					for l := range ls[ld] {
+						if ls[ins][l] {
+							common = true
+						}
+					}
+					if !common {
+						ok2 = false
+						note = fmt.Sprintf("%s takes %s under a lock (%s) and calls %s on it after the lock is released (%s); another context replaces %s, so the object may have been completed or replaced in between", funcKey(fn), cellName(al), pc.pos(ld.Pos()), m, pc.pos(ins.Pos()), cellName(al))
+					}
+				}
+				if !relevant {
+					continue
+				}
+				n++
+				pc.add(props, fmt.Sprintf("P11/%s/%s/use#%d-of-a-shared-handle-is-ordered-with-its-replacement", s.Name, strings.TrimPrefix(funcKey(fn), funcKey(s.Top)), n),
+					"an observer-like object taken from a shared cell under a lock is used before that lock (or another lock held since the take) is released, when another context replaces the content of the cell", ok2, note, pc.pos(ins.Pos()))
+			}
+		}
 	}
 }
